@@ -431,6 +431,11 @@ func c04Table(kind, mode string, deco int) {
 			s = s.NotNil()
 		}
 		var d *int
+		preset := 4242
+		prefilled := !isV && v.Choice("prefilled", 2) == 1
+		if prefilled {
+			d = &preset // a destination that already holds a pointer
+		}
 		var in any
 		switch cls {
 		case tNil:
@@ -457,7 +462,13 @@ func c04Table(kind, mode string, deco int) {
 			issues = append(issues, e.Code)
 		}
 		untouched = d == nil
+		if prefilled {
+			untouched = d == &preset && preset == 4242
+		}
 		gotValue = d != nil && ((cls == tPresent && *d == val) || (cls == tFalsy && *d == 0))
+		if prefilled && !absent {
+			gotValue = gotValue && d == &preset // filled in place
+		}
 		if absent {
 			if req {
 				v.Cover("required-issue")
